@@ -428,7 +428,8 @@ func checkLoopCensus(c *core.Ctx) {
 			continue
 		}
 		if hit.finding {
-			c.Fail("C20.R1", l.fn, detail+" terminates for every finite input", l.pos, hit.reason)
+			// keyed without the syntactic shape of the loop: a rewrite of the same loop stays the same finding
+			c.Fail("C20.R1", l.fn, fmt.Sprintf("loop #%d terminates for every finite input", l.ord), l.pos, hit.reason)
 		} else {
 			c.OK("C20.R1", l.fn, detail+": "+hit.reason, l.pos, "")
 		}
@@ -756,6 +757,15 @@ func checkSliceBounds(c *core.Ctx) {
 // given the extent equalities the guards establish on that path.
 
 func extentOf(cont *sym.Term, pos, rank int) []*sym.Term {
+	// a private copy (clone(X)) has the extents of X
+	for {
+		as := cont.Atoms()
+		if len(as) == 1 && as[0].Kind == "clone" && len(as[0].Args) == 1 && cont.String() == as[0].Key() {
+			cont = as[0].Args[0]
+			continue
+		}
+		break
+	}
 	if rank == 1 {
 		return []*sym.Term{sym.Fn("dim", cont)}
 	}
@@ -1161,9 +1171,47 @@ func checkSvdScan(c *core.Ctx) {
 		c.Unknown("C20.R6", cons, "bounds are linear in the integer variables", scan.Pos(), "the scan loop header or the Slice bounds are not of the counted linear form")
 		return
 	}
+	checkSvdScanFrame(c, cons, info, scan)
 	c.Check(same(lo, blo) && same(hi, shift(bhi, -2)), "C20.R6", cons, "scan covers rows p .. e-2 of the step block", scan.Pos(),
 		fmt.Sprintf("the block handed to the step is B[%s:%s] but the zero-diagonal scan ranges over a different set of rows (header `%s; %s; %s`): a zero diagonal entry of the block that the scan skips stays in place, the step then changes nothing and the driver does not terminate",
 			exprStr(slice.Args[0]), exprStr(slice.Args[1]), nodeStr(scan.Init), exprStr(scan.Cond), nodeStr(scan.Post)))
+}
+
+// checkSvdScanFrame: the row index found by the scan is an index into the matrix whose diagonal was tested; the
+// routine that removes the zero has to be handed that same matrix (a slice of it has its own index origin: with the
+// absolute index the routine works on the wrong row, nothing changes and the driver spins).
+func checkSvdScanFrame(c *core.Ctx, cons string, info *types.Info, scan *ast.ForStmt) {
+	ast.Inspect(scan.Body, func(n ast.Node) bool {
+		is, ok := n.(*ast.IfStmt)
+		if !ok {
+			return true
+		}
+		var tested types.Object
+		ast.Inspect(is.Cond, func(m ast.Node) bool {
+			if ce, ok := m.(*ast.CallExpr); ok && len(ce.Args) == 2 {
+				if sel, ok := ast.Unparen(ce.Fun).(*ast.SelectorExpr); ok && (sel.Sel.Name == "At" || sel.Sel.Name == "ConstAt" || sel.Sel.Name == "AT") {
+					if id, ok := ast.Unparen(sel.X).(*ast.Ident); ok {
+						tested = info.Uses[id]
+					}
+				}
+			}
+			return true
+		})
+		if tested == nil {
+			return true
+		}
+		ast.Inspect(is.Body, func(m ast.Node) bool {
+			ce, ok := m.(*ast.CallExpr)
+			if !ok || calleeName(ce) != "zeroRow" || len(ce.Args) == 0 {
+				return true
+			}
+			id, ok := ast.Unparen(ce.Args[0]).(*ast.Ident)
+			c.Check(ok && info.Uses[id] == tested, "C20.R6", cons, "zeroRow works on the matrix whose diagonal was tested", ce.Pos(),
+				"the scan finds a zero at an index of "+tested.Name()+" but zeroRow is handed "+exprStr(ce.Args[0])+": a slice has its own index origin, the zero is not removed and the driver does not terminate")
+			return true
+		})
+		return true
+	})
 }
 
 func nodeStr(n ast.Node) string {
